@@ -54,6 +54,41 @@ def isinstance_chains(func_node):
     return chains
 
 
+def table_dispatch(ctx, fi):
+    """`for classes, payload in TABLE: if isinstance(x, classes): ...; break` over a literal tuple / list of pairs that is a class
+    attribute (self.TABLE / Cls.TABLE) or a module constant: -> [(subject text, [(classes expr, payload expr), ...] in table
+    order, loop node)].  First match wins, like an if/elif chain written in that order."""
+    out = []
+    if isinstance(fi.node, ast.Lambda):
+        return out
+    for lp in ast.walk(fi.node):
+        if not (isinstance(lp, ast.For) and isinstance(lp.target, ast.Tuple) and len(lp.target.elts) == 2
+                and all(isinstance(t, ast.Name) for t in lp.target.elts)):
+            continue
+        table = None
+        it = lp.iter
+        if isinstance(it, ast.Attribute) and isinstance(it.value, ast.Name) and fi.cls is not None:
+            k, v = ctx.res.lookup_class_attr(fi.cls, it.attr)
+            table = v
+        elif isinstance(it, ast.Name):
+            for st in fi.module.tree.body:
+                if isinstance(st, ast.Assign) and pseudo(st.targets[0]) == it.id:
+                    table = st.value
+        if not (isinstance(table, (ast.Tuple, ast.List)) and table.elts and
+                all(isinstance(e, (ast.Tuple, ast.List)) and len(e.elts) == 2 for e in table.elts)):
+            continue
+        cvar, pvar = lp.target.elts[0].id, lp.target.elts[1].id
+        tests = [n for n in lp.body if isinstance(n, ast.If) and isinstance(n.test, ast.Call) and u(n.test.func) == 'isinstance'
+                 and len(n.test.args) == 2 and pseudo(n.test.args[1]) == cvar]
+        if len(tests) != 1 or len(lp.body) != 1:
+            continue
+        stops = any(isinstance(x, (ast.Break, ast.Return)) for x in tests[0].body)
+        if not stops:
+            continue
+        out.append((u(tests[0].test.args[0]), [(e.elts[0], e.elts[1]) for e in table.elts], lp, tests[0], pvar))
+    return out
+
+
 def r17_isinstance_order(ctx, funcs, rule='R17', floor=1):
     run = ctx.run
     run.rule(rule, 'ISINSTANCE-ORDER: in an if/elif chain of isinstance tests on one subject no earlier class is a proper '
@@ -104,6 +139,20 @@ def r17_isinstance_order(ctx, funcs, rule='R17', floor=1):
                       'isinstance chain on %s: %s' % (subj, ' / '.join(u(t.args[1]) for t in tests)),
                       'isinstance(%s, %s) is tested before the more specific %s: the later branch can never be taken'
                       % ((subj,) + b[:2] if b else ('', '', '')))
+        # table-driven form of the same classification
+        for subj, pairs, lp, _t, _pv in table_dispatch(ctx, fi):
+            n += 1
+            b = None
+            for i, (ca, _) in enumerate(pairs):
+                for cb, _ in pairs[i + 1:]:
+                    for an, ac in _classes_of(ctx, ca):
+                        for bn, bc in _classes_of(ctx, cb):
+                            if ac is not None and bc is not None and ac is not bc and issubclass(bc, ac):
+                                b = b or (an, bn)
+            run.check(b is None, rule, where(ctx.repo, lp), fi.qualname,
+                      'isinstance table on %s: %s' % (subj, ' / '.join(u(c) for c, _ in pairs)),
+                      'isinstance(%s, %s) is tested before the more specific %s: the later entry can never be taken'
+                      % ((subj,) + b if b else ('', '', '')))
     run.floor(rule, n, floor, 'isinstance chains')
     return n
 
